@@ -26,8 +26,8 @@ var c06BadToks = []lang.Tok{
 	{Kind: lang.TBad, Text: "1x", FailAt: 2}, {Kind: lang.TBad, Text: "12ab", FailAt: 3}, {Kind: lang.TBad, Text: "0x1g", FailAt: 4},
 	{Kind: lang.TBad, Text: "1.", FailAt: 2}, {Kind: lang.TBad, Text: "1e", FailAt: 2}, {Kind: lang.TBad, Text: "1e+", FailAt: 3},
 	{Kind: lang.TBad, Text: "1.5x", FailAt: 4}, {Kind: lang.TBad, Text: `ab"`, FailAt: 3}, {Kind: lang.TBad, Text: `1"`, FailAt: 2},
-	{Kind: lang.TBad, Text: `"s"x`, FailAt: 4}, {Kind: lang.TBad, Text: `"abc`, FailAt: 4}, {Kind: lang.TBad, Text: "\"abc\n", FailAt: 5},
-	{Kind: lang.TBad, Text: `"ab\`, FailAt: 4}, {Kind: lang.TBad, Text: "\"ab\\\n", FailAt: 5}, {Kind: lang.TBad, Text: "0x1.", FailAt: 4},
+	{Kind: lang.TBad, Text: `"s"x`, FailAt: 4}, {Kind: lang.TBad, Text: `"abc`, FailAt: 4, ToEOL: true}, {Kind: lang.TBad, Text: "\"abc\n", FailAt: 5},
+	{Kind: lang.TBad, Text: `"ab\`, FailAt: 4, ToEOL: true}, {Kind: lang.TBad, Text: "\"ab\\\n", FailAt: 5}, {Kind: lang.TBad, Text: "0x1.", FailAt: 4},
 	{Kind: lang.TBad, Text: "\x00", FailAt: 1}, {Kind: lang.TBad, Text: "~", FailAt: 1}, {Kind: lang.TBad, Text: "\u2028", FailAt: 3},
 }
 
